@@ -150,6 +150,42 @@ def gl2(prog, getfn):
         errs.append("insert and get compute the slot differently: %s vs %s" % (sorted(s_ins), sorted(s_get)))
     out.append(inst("GL", "%s:GL2:slot-write" % ins.npath, VIOLATION if errs else OK, ins, None,
                     "; ".join(errs) if errs else "tbl[f(hash,cap)] = Some(Element::new(key,val,hash)); same f as get"))
+    # the slot is computed from the table's *current* geometry: no call that can change a field the slot expression
+    # reads (grow doubles cap) runs between the read and the write.  A slot computed before the growth indexes the
+    # doubled table with the old mask: the new value lands where get does not look, and the copy that grow moved to
+    # the right slot is the older one.
+    errs = []
+    if len(stores) == 1:
+        sb = stores[0][0]
+        reads = []       # (block of the computation, field of self it reads)
+        for x in mir.subterms(stores[0][1][2][1]) if len(stores[0][1][2]) > 1 else ():
+            if x[0] == "call" and len(x) > 3 and isinstance(x[3], tuple) and x[3]:
+                for y in mir.subterms(("t",) + tuple(x[2])):
+                    if y[0] == "field" and strip(y[1]) == ("param", 1):
+                        reads.append((x[3][0], y[2]))
+        if not reads:
+            errs.append("?the slot expression reads no field of the table through a call")
+        for cs in te.calls:
+            if not any(strip(a) == ("param", 1) for a in cs.args):
+                continue
+            written = set()
+            for g in prog.resolve(cs.callee):
+                for (_, pt, _, _) in g.terms.stores:
+                    p_ = strip(pt)
+                    while isinstance(p_, tuple) and p_ and p_[0] == "field" and strip(p_[1]) != ("param", 1):
+                        p_ = strip(p_[1])
+                    if isinstance(p_, tuple) and p_ and p_[0] == "field" and strip(p_[1]) == ("param", 1):
+                        written.add(p_[2])
+            for rb, fld in reads:
+                if fld in written and rb != cs.bb and cs.bb in ins.cfg.reachable_from(rb) and sb in ins.cfg.reachable_from(cs.bb):
+                    errs.append("the slot is computed from self.%s (%s) before `%s` may change it (line %s), and used to write the "
+                                "table afterwards: after a growth the entry is written at the slot of the old capacity, where "
+                                "get does not look, while the copy grow re-inserted at the right slot is the older value"
+                                % (fld, show(stores[0][1][2][1])[:50], cs.callee.name, cs.line))
+    else:
+        errs.append("?no single whole-slot write")
+    out.append(inst("GL", "%s:GL2:slot-after-growth" % ins.npath, verdict_of(errs), ins, None,
+                    errtext(sorted(set(errs))[:1]) if errs else "the slot is computed after the last call that can change the fields it reads"))
     grow = prog.find1(name="grow", self_adt="util::lru::Lru", unit="rsdd-lib")
     te = grow.terms
     # the re-insertion may sit in a closure handed to an iterator adaptor (for_each)
@@ -338,6 +374,49 @@ def gl4(prog):
                 errs.append("residual hash is not taken before the level's decisions")
     out.append(inst("GL", "%s:GL4:component-cache" % fn.npath, VIOLATION if errs else OK, fn, None,
                     "; ".join(errs) if errs else "cache.get(h) / cache.insert(h, r) with h = cur_hash() taken before deciding"))
+    # the key is the solver's residual hash: a product of the primes the *hasher of the CNF being compiled* gave to its
+    # literal positions.  It identifies a residual formula of that CNF only, so the table lives exactly as long as one
+    # compilation: every outside caller of topdown_h hands it a map created in that very call.
+    cache_idx = None
+    for i in range(1, fn.argc + 1):
+        if "HashMap" in fn.locals[i]["s"]:
+            cache_idx = i - 1
+    errs, n_ext = [], 0
+    for g in prog.lib_fns:
+        if g is fn or "::test" in g.npath or not any(b["term"]["k"] == "call" for b in g.blocks) or g.npath.startswith(fn.npath):
+            continue
+        for cs in g.terms.calls:
+            if cs.callee.name != "topdown_h" or fn not in prog.resolve(cs.callee) or cache_idx is None or len(cs.args) <= cache_idx:
+                continue
+            n_ext += 1
+            a = strip(cs.args[cache_idx])
+            v = strip(g.terms.state_in[cs.bb].get(a[1])) if a[0] == "mutref" and a[1] in g.terms.state_in.get(cs.bb, {}) else a
+            def walk(x):
+                if isinstance(x, tuple):
+                    yield x
+                    for y in x:
+                        yield from walk(y)
+            fresh = any(mir.is_call(v, n_) for n_ in ("default", "new", "with_capacity", "with_hasher", "with_capacity_and_hasher"))
+            from_outside = [x for x in walk(v) if x and x[0] == "param"]
+            if fresh and not from_outside:
+                continue
+            # a longer-lived map that is emptied first is as good as a new one
+            cleared = [c2 for c2 in g.terms.calls if c2.callee.name == "clear" and c2.args and g.cfg.dominates(c2.bb, cs.bb) and
+                       (strip(c2.args[0]) == a or (a[0] == "mutref" and strip(g.terms.state_in[c2.bb].get(strip(c2.args[0])[1], ())
+                                                                       if strip(c2.args[0])[0] == "mutref" else strip(c2.args[0])) == v)
+                        or any(x in list(walk(strip(c2.args[0]))) for x in walk(v) if x and x[0] == "call"))]
+            if cleared:
+                continue
+            if from_outside:
+                errs.append("%s hands topdown_h a component cache that comes from %s and outlives the call: its keys are residual "
+                            "hashes relative to one CNF's hasher, so a second compilation through the same builder finds the first "
+                            "one's sub-diagrams under its own keys" % (g.npath.split("::")[-1], show(v)[:50]))
+            else:
+                errs.append("?the component cache handed to topdown_h is %s" % show(v)[:60])
+    if not n_ext:
+        errs.append("?no outside caller of topdown_h found")
+    out.append(inst("GL", "%s:GL4:component-cache-per-compilation" % fn.npath, verdict_of(errs), fn, None,
+                    errtext(errs) if errs else "every outside caller passes a map it has just created"))
     return out
 
 
@@ -506,6 +585,23 @@ def gl7(prog):
             ok = fed is not None and len(fed) == 1 and mir.is_call(fed[0], "value") and mir.is_call(strip(fed[0][2][0]), "semantic_hash")
             errs = [] if ok else ["%sinterning key is %s, not FxHash(value(semantic_hash(node)))"
                                   % ("?" if fed is None else "", [show(f)[:40] for f in fed] if fed else "unrecognised")]
+            if ok and nm == "get_or_insert":
+                # ... of the node that is *stored*: a node rebuilt after the hash was taken (children negated, say)
+                # denotes another function than the key says
+                hashed = strip(strip(fed[0][2][0])[2][0])
+                while isinstance(hashed, tuple) and hashed and hashed[0] in ("ref", "deref"):
+                    hashed = strip(hashed[1])
+                stored = [strip(cs.args[2]) for cs in te.calls if cs.callee.name == "get_or_insert_by_hash" and len(cs.args) >= 3]
+                for st_ in stored:
+                    if st_ == hashed:
+                        continue
+                    rebuilt = [x for x in mir.subterms(st_) if mir.is_call(x, "new") and "BddNode" in x[1].key()]
+                    if rebuilt:
+                        errs.append("the key is the semantic hash of %s, but the node stored under it is %s: a node rebuilt after the "
+                                    "hash was taken denotes a different function than its key, so a later request for the keyed "
+                                    "function gets the rebuilt one" % (show(hashed)[:30], show(st_)[:70]))
+                    else:
+                        errs.append("?the stored node %s is not the hashed node %s" % (show(st_)[:40], show(hashed)[:30]))
             out.append(inst("GL", "%s::%s:GL7:intern-key" % (self_adt, nm), verdict_of(errs), fn, None,
                             errtext(errs) if errs else "node filed under FxHash(value(semantic_hash(node)))"))
     return out
